@@ -615,14 +615,24 @@ pub fn cmd_check(prop: &str, tier: &str) {
     let mut harness_errors: Vec<String> = Vec::new();
     let mut total_found = 0u64;
     let own = std::env::current_exe().unwrap();
-    run_phase(&own, jobs, prop, &tier, base, deadline, budget_s, maxk, &mut stats, &mut found, &mut harness_errors, &mut total_found);
+    let s_unavailable = std::env::var("VERIF_S_UNAVAILABLE").is_ok();
+    if !s_unavailable {
+        run_phase(&own, jobs, prop, &tier, base, deadline, budget_s, maxk, &mut stats, &mut found, &mut harness_errors, &mut total_found);
+    } else {
+        harness_errors.push("engine S does not build against this tree (the stand-in pool lacks a part of rayon's API that the tree uses?): searched with engine R on real rayon only, which can report a violation but cannot stand in for the whole check".into());
+    }
     let s_runs = stats.runs;
     // engine R: the same scenarios and oracles on real rayon (threads parked by a controller)
     let mut r_runs = 0;
     if let Some(real) = std::env::var("VERIF_BIN_REAL").ok().filter(|p| std::path::Path::new(p).exists()) {
         if matches!(prop, "C01" | "C02" | "C03" | "C04" | "C07" | "C11" | "C12" | "C14") {
-            let rb: u64 = std::env::var("VERIF_BUDGET_R_S").ok().and_then(|s| s.parse().ok()).unwrap_or(if thorough { 120 } else { 8 });
-            let rjobs: usize = std::env::var("VERIF_JOBS_R").ok().and_then(|s| s.parse().ok()).unwrap_or(4);
+            let mut rb: u64 = std::env::var("VERIF_BUDGET_R_S").ok().and_then(|s| s.parse().ok()).unwrap_or(if thorough { 120 } else { 8 });
+            let mut rjobs: usize = std::env::var("VERIF_JOBS_R").ok().and_then(|s| s.parse().ok()).unwrap_or(4);
+            if s_unavailable {
+                // engine R gets the whole budget and more processes
+                rb += budget_s;
+                rjobs = rjobs.max(8);
+            }
             let dl = now_ms() + rb * 1000;
             // a different part of the seed sequence than engine S explores
             run_phase(std::path::Path::new(&real), rjobs, prop, &tier, base ^ 0x52_0000_0000, dl, rb, maxk, &mut stats, &mut found, &mut harness_errors, &mut total_found);
